@@ -51,7 +51,9 @@ def _gen_parts(rng: random.Random, boundary: bytes):
     for _ in range(rng.choice([0, 1, 2, 3, 5])):
         name = rng.choice(["a", "b", _text(rng, name=True), _text(rng, name=True)])
         if rng.random() < 0.45:
-            parts.append({"kind": "file", "name": name, "fname": _text(rng, name=True) if rng.random() < 0.8 else "f.bin",
+            parts.append({"kind": "file", "name": name,
+                          "fname": rng.choice(["<scan>", "<>", "<untitled>.txt>", "<stdin>", "-", ".", "..", "a/b", "C:\\x", " lead", "trail "])
+                          if rng.random() < 0.12 else (_text(rng, name=True) if rng.random() < 0.8 else "f.bin"),
                           "ctype": rng.choice(["text/plain", "application/octet-stream", "image/png", "text/plain; charset=utf-8"]),
                           "data": _blob(rng, boundary)})
         else:
